@@ -204,267 +204,221 @@ Theorem C04_backends :
   /\ fused_reg Fallback = false /\ fused_reg Avx2 = false /\ fused_reg Avx2Fma = true /\ fused_reg Avx512 = true.
 Proof. exact backends. Qed.
 
-Theorem C04_sum_bound_f32 :
+(* f32: every row of [f32_ops] — sum, dot, norm, Euclid bounds; sum, dot, norm, Euclid exactness; one-hot *)
+Theorem C04_f32 :
   forall (r : reg) (R : SimdOps f32), f32_ops r = Some R ->
-    forall (a b res : list f32) (dims : nat),
-    length a = dims -> Forall (fun x => fin x) a ->
-    INR (dims + 3) * u 24 < 1 ->
-    (1 + u 24) ^ (dims + 3) * Rsum (map (fun x => Rabs (B2R x)) a) < bpow radix2 128 ->
-    match generic_sum R float_math dims (init_mem a b res) with
-    | Ok r m => run_ok (init_mem a b res) m /\ fin r /\
-                Rabs (B2R r - Rsum (map (fun x => B2R x) a))
-                <= gamma 24 (dims + 3) * Rsum (map (fun x => Rabs (B2R x)) a)
-    | _ => False
-    end.
-Proof. exact (sum_bound_ops f32_ops f32_ops_faithful). Qed.
+   (forall (a b res : list f32) (dims : nat),
+      length a = dims -> Forall (fun x => fin x) a ->
+      INR (dims + 3) * u 24 < 1 ->
+      (1 + u 24) ^ (dims + 3) * Rsum (map (fun x => Rabs (B2R x)) a) < bpow radix2 128 ->
+      match generic_sum R float_math dims (init_mem a b res) with
+      | Ok r m => run_ok (init_mem a b res) m /\ fin r /\
+                  Rabs (B2R r - Rsum (map (fun x => B2R x) a))
+                  <= gamma 24 (dims + 3) * Rsum (map (fun x => Rabs (B2R x)) a)
+      | _ => False
+      end)
+   /\
+   (forall (a b res : list f32) (dims : nat),
+      length a = dims -> Forall (fun x => fin x) a ->
+      INR (dims + 3) * u 24 < 1 ->
+      length b = dims -> Forall (fun x => fin x) b ->
+      Forall2 (fun x y => nosub 24 (SpecFloat.emin 24 128) (B2R x * B2R y)) a b ->
+      (1 + u 24) ^ (dims + 3) * Rsum (map2 (fun x y => Rabs (B2R x * B2R y)) a b) < bpow radix2 128 ->
+      match generic_dot_product R float_math dims (init_mem a b res) with
+      | Ok r m => run_ok (init_mem a b res) m /\ fin r /\
+                  Rabs (B2R r - Rsum (map2 (fun x y => B2R x * B2R y) a b))
+                  <= gamma 24 (dims + 3) * Rsum (map2 (fun x y => Rabs (B2R x * B2R y)) a b)
+      | _ => False
+      end)
+   /\
+   (forall (a b res : list f32) (dims : nat),
+      length a = dims -> Forall (fun x => fin x) a ->
+      INR (dims + 3) * u 24 < 1 ->
+      Forall (fun x => nosub 24 (SpecFloat.emin 24 128) (B2R x * B2R x)) a ->
+      (1 + u 24) ^ (dims + 3) * Rsum (map (fun x => Rabs (B2R x * B2R x)) a) < bpow radix2 128 ->
+      match generic_squared_norm R float_math dims (init_mem a b res) with
+      | Ok r m => run_ok (init_mem a b res) m /\ fin r /\
+                  Rabs (B2R r - Rsum (map (fun x => B2R x * B2R x) a))
+                  <= gamma 24 (dims + 3) * Rsum (map (fun x => Rabs (B2R x * B2R x)) a)
+      | _ => False
+      end)
+   /\
+   (forall (a b res : list f32) (dims : nat),
+      length a = dims -> Forall (fun x => fin x) a ->
+      INR (dims + 3) * u 24 < 1 ->
+      length b = dims -> Forall (fun x => fin x) b ->
+      Forall2 (fun x y => nosub 24 (SpecFloat.emin 24 128) (dsq x y)) a b ->
+      (1 + u 24) ^ (dims + 3) * Rsum (map2 (fun x y => Rabs (sq x y)) a b) < bpow radix2 128 ->
+      match generic_euclidean R float_math dims (init_mem a b res) with
+      | Ok r m => run_ok (init_mem a b res) m /\ fin r /\
+                  Rabs (B2R r - Rsum (map2 sq a b))
+                  <= gamma 24 (dims + 3) * Rsum (map2 (fun x y => Rabs (sq x y)) a b)
+      | _ => False
+      end)
+   /\
+   (forall (a b res : list f32) (dims : nat),
+      length a = dims -> Forall (fun x => fin x) a ->
+      forall e : Z, (SpecFloat.emin 24 128 <= e)%Z ->
+      Forall (fun x => mult_e e (B2R x)) a ->
+      Rsum (map (fun x => Rabs (B2R x)) a) <= bpow radix2 (e + 24) ->
+      Rsum (map (fun x => Rabs (B2R x)) a) < bpow radix2 128 ->
+      match generic_sum R float_math dims (init_mem a b res) with
+      | Ok r m => run_ok (init_mem a b res) m /\ fin r /\ B2R r = Rsum (map (fun x => B2R x) a)
+      | _ => False
+      end)
+   /\
+   (forall (a b res : list f32) (dims : nat),
+      length a = dims -> Forall (fun x => fin x) a ->
+      forall e : Z, (SpecFloat.emin 24 128 <= e)%Z ->
+      length b = dims -> Forall (fun x => fin x) b ->
+      Forall2 (fun x y => mult_e e (B2R x * B2R y)) a b ->
+      Rsum (map2 (fun x y => Rabs (B2R x * B2R y)) a b) <= bpow radix2 (e + 24) ->
+      Rsum (map2 (fun x y => Rabs (B2R x * B2R y)) a b) < bpow radix2 128 ->
+      match generic_dot_product R float_math dims (init_mem a b res) with
+      | Ok r m => run_ok (init_mem a b res) m /\ fin r /\ B2R r = Rsum (map2 (fun x y => B2R x * B2R y) a b)
+      | _ => False
+      end)
+   /\
+   (forall (a b res : list f32) (dims : nat),
+      length a = dims -> Forall (fun x => fin x) a ->
+      forall e : Z, (SpecFloat.emin 24 128 <= e)%Z ->
+      Forall (fun x => mult_e e (B2R x * B2R x)) a ->
+      Rsum (map (fun x => Rabs (B2R x * B2R x)) a) <= bpow radix2 (e + 24) ->
+      Rsum (map (fun x => Rabs (B2R x * B2R x)) a) < bpow radix2 128 ->
+      match generic_squared_norm R float_math dims (init_mem a b res) with
+      | Ok r m => run_ok (init_mem a b res) m /\ fin r /\ B2R r = Rsum (map (fun x => B2R x * B2R x) a)
+      | _ => False
+      end)
+   /\
+   (forall (a b res : list f32) (dims : nat),
+      length a = dims -> Forall (fun x => fin x) a ->
+      forall e : Z, (SpecFloat.emin 24 128 <= e)%Z ->
+      length b = dims -> Forall (fun x => fin x) b ->
+      Forall2 (fun x y => generic_format radix2 (FLT_exp (SpecFloat.emin 24 128) 24) (B2R x - B2R y)
+                           /\ mult_e e (sq x y)) a b ->
+      Rsum (map2 (fun x y => Rabs (sq x y)) a b) <= bpow radix2 (e + 24) ->
+      Rsum (map2 (fun x y => Rabs (sq x y)) a b) < bpow radix2 128 ->
+      match generic_euclidean R float_math dims (init_mem a b res) with
+      | Ok r m => run_ok (init_mem a b res) m /\ fin r /\ B2R r = Rsum (map2 sq a b)
+      | _ => False
+      end)
+   /\
+   (forall (l1 l2 b res : list f32),
+      Forall (fun x => fin x /\ B2R x = 0) l1 -> Forall (fun x => fin x /\ B2R x = 0) l2 ->
+      let a := l1 ++ [f_one] ++ l2 in
+      match generic_sum R float_math (length a) (init_mem a b res) with
+      | Ok r m => run_ok (init_mem a b res) m /\ fin r /\ B2R r = 1
+      | _ => False
+      end).
+Proof. exact (all_ops f32_ops f32_ops_faithful). Qed.
 
-Theorem C04_dot_bound_f32 :
-  forall (r : reg) (R : SimdOps f32), f32_ops r = Some R ->
-    forall (a b res : list f32) (dims : nat),
-    length a = dims -> Forall (fun x => fin x) a ->
-    INR (dims + 3) * u 24 < 1 ->
-    length b = dims -> Forall (fun x => fin x) b ->
-    Forall2 (fun x y => nosub 24 (SpecFloat.emin 24 128) (B2R x * B2R y)) a b ->
-    (1 + u 24) ^ (dims + 3) * Rsum (map2 (fun x y => Rabs (B2R x * B2R y)) a b) < bpow radix2 128 ->
-    match generic_dot_product R float_math dims (init_mem a b res) with
-    | Ok r m => run_ok (init_mem a b res) m /\ fin r /\
-                Rabs (B2R r - Rsum (map2 (fun x y => B2R x * B2R y) a b))
-                <= gamma 24 (dims + 3) * Rsum (map2 (fun x y => Rabs (B2R x * B2R y)) a b)
-    | _ => False
-    end.
-Proof. exact (dot_bound_ops f32_ops f32_ops_faithful). Qed.
-
-Theorem C04_norm_bound_f32 :
-  forall (r : reg) (R : SimdOps f32), f32_ops r = Some R ->
-    forall (a b res : list f32) (dims : nat),
-    length a = dims -> Forall (fun x => fin x) a ->
-    INR (dims + 3) * u 24 < 1 ->
-    Forall (fun x => nosub 24 (SpecFloat.emin 24 128) (B2R x * B2R x)) a ->
-    (1 + u 24) ^ (dims + 3) * Rsum (map (fun x => Rabs (B2R x * B2R x)) a) < bpow radix2 128 ->
-    match generic_squared_norm R float_math dims (init_mem a b res) with
-    | Ok r m => run_ok (init_mem a b res) m /\ fin r /\
-                Rabs (B2R r - Rsum (map (fun x => B2R x * B2R x) a))
-                <= gamma 24 (dims + 3) * Rsum (map (fun x => Rabs (B2R x * B2R x)) a)
-    | _ => False
-    end.
-Proof. exact (norm_bound_ops f32_ops f32_ops_faithful). Qed.
-
-Theorem C04_euclid_bound_f32 :
-  forall (r : reg) (R : SimdOps f32), f32_ops r = Some R ->
-    forall (a b res : list f32) (dims : nat),
-    length a = dims -> Forall (fun x => fin x) a ->
-    INR (dims + 3) * u 24 < 1 ->
-    length b = dims -> Forall (fun x => fin x) b ->
-    Forall2 (fun x y => nosub 24 (SpecFloat.emin 24 128) (dsq x y)) a b ->
-    (1 + u 24) ^ (dims + 3) * Rsum (map2 (fun x y => Rabs (sq x y)) a b) < bpow radix2 128 ->
-    match generic_euclidean R float_math dims (init_mem a b res) with
-    | Ok r m => run_ok (init_mem a b res) m /\ fin r /\
-                Rabs (B2R r - Rsum (map2 sq a b))
-                <= gamma 24 (dims + 3) * Rsum (map2 (fun x y => Rabs (sq x y)) a b)
-    | _ => False
-    end.
-Proof. exact (euclid_bound_ops f32_ops f32_ops_faithful). Qed.
-
-Theorem C04_sum_exact_f32 :
-  forall (r : reg) (R : SimdOps f32), f32_ops r = Some R ->
-    forall (a b res : list f32) (dims : nat),
-    length a = dims -> Forall (fun x => fin x) a ->
-    forall e : Z, (SpecFloat.emin 24 128 <= e)%Z ->
-    Forall (fun x => mult_e e (B2R x)) a ->
-    Rsum (map (fun x => Rabs (B2R x)) a) <= bpow radix2 (e + 24) ->
-    Rsum (map (fun x => Rabs (B2R x)) a) < bpow radix2 128 ->
-    match generic_sum R float_math dims (init_mem a b res) with
-    | Ok r m => run_ok (init_mem a b res) m /\ fin r /\ B2R r = Rsum (map (fun x => B2R x) a)
-    | _ => False
-    end.
-Proof. exact (sum_exact_ops f32_ops f32_ops_faithful). Qed.
-
-Theorem C04_dot_exact_f32 :
-  forall (r : reg) (R : SimdOps f32), f32_ops r = Some R ->
-    forall (a b res : list f32) (dims : nat),
-    length a = dims -> Forall (fun x => fin x) a ->
-    forall e : Z, (SpecFloat.emin 24 128 <= e)%Z ->
-    length b = dims -> Forall (fun x => fin x) b ->
-    Forall2 (fun x y => mult_e e (B2R x * B2R y)) a b ->
-    Rsum (map2 (fun x y => Rabs (B2R x * B2R y)) a b) <= bpow radix2 (e + 24) ->
-    Rsum (map2 (fun x y => Rabs (B2R x * B2R y)) a b) < bpow radix2 128 ->
-    match generic_dot_product R float_math dims (init_mem a b res) with
-    | Ok r m => run_ok (init_mem a b res) m /\ fin r /\ B2R r = Rsum (map2 (fun x y => B2R x * B2R y) a b)
-    | _ => False
-    end.
-Proof. exact (dot_exact_ops f32_ops f32_ops_faithful). Qed.
-
-Theorem C04_norm_exact_f32 :
-  forall (r : reg) (R : SimdOps f32), f32_ops r = Some R ->
-    forall (a b res : list f32) (dims : nat),
-    length a = dims -> Forall (fun x => fin x) a ->
-    forall e : Z, (SpecFloat.emin 24 128 <= e)%Z ->
-    Forall (fun x => mult_e e (B2R x * B2R x)) a ->
-    Rsum (map (fun x => Rabs (B2R x * B2R x)) a) <= bpow radix2 (e + 24) ->
-    Rsum (map (fun x => Rabs (B2R x * B2R x)) a) < bpow radix2 128 ->
-    match generic_squared_norm R float_math dims (init_mem a b res) with
-    | Ok r m => run_ok (init_mem a b res) m /\ fin r /\ B2R r = Rsum (map (fun x => B2R x * B2R x) a)
-    | _ => False
-    end.
-Proof. exact (norm_exact_ops f32_ops f32_ops_faithful). Qed.
-
-Theorem C04_euclid_exact_f32 :
-  forall (r : reg) (R : SimdOps f32), f32_ops r = Some R ->
-    forall (a b res : list f32) (dims : nat),
-    length a = dims -> Forall (fun x => fin x) a ->
-    forall e : Z, (SpecFloat.emin 24 128 <= e)%Z ->
-    length b = dims -> Forall (fun x => fin x) b ->
-    Forall2 (fun x y => generic_format radix2 (FLT_exp (SpecFloat.emin 24 128) 24) (B2R x - B2R y)
-                         /\ mult_e e (sq x y)) a b ->
-    Rsum (map2 (fun x y => Rabs (sq x y)) a b) <= bpow radix2 (e + 24) ->
-    Rsum (map2 (fun x y => Rabs (sq x y)) a b) < bpow radix2 128 ->
-    match generic_euclidean R float_math dims (init_mem a b res) with
-    | Ok r m => run_ok (init_mem a b res) m /\ fin r /\ B2R r = Rsum (map2 sq a b)
-    | _ => False
-    end.
-Proof. exact (euclid_exact_ops f32_ops f32_ops_faithful). Qed.
-
-Theorem C04_onehot_f32 :
-  forall (r : reg) (R : SimdOps f32), f32_ops r = Some R ->
-    forall (l1 l2 b res : list f32),
-    Forall (fun x => fin x /\ B2R x = 0) l1 -> Forall (fun x => fin x /\ B2R x = 0) l2 ->
-    let a := l1 ++ [f_one] ++ l2 in
-    match generic_sum R float_math (length a) (init_mem a b res) with
-    | Ok r m => run_ok (init_mem a b res) m /\ fin r /\ B2R r = 1
-    | _ => False
-    end.
-Proof. exact (sum_onehot_ops f32_ops f32_ops_faithful). Qed.
-
-Theorem C04_sum_bound_f64 :
+(* f64: every row of [f64_ops] — sum, dot, norm, Euclid bounds; sum, dot, norm, Euclid exactness; one-hot *)
+Theorem C04_f64 :
   forall (r : reg) (R : SimdOps f64), f64_ops r = Some R ->
-    forall (a b res : list f64) (dims : nat),
-    length a = dims -> Forall (fun x => fin x) a ->
-    INR (dims + 3) * u 53 < 1 ->
-    (1 + u 53) ^ (dims + 3) * Rsum (map (fun x => Rabs (B2R x)) a) < bpow radix2 1024 ->
-    match generic_sum R float_math dims (init_mem a b res) with
-    | Ok r m => run_ok (init_mem a b res) m /\ fin r /\
-                Rabs (B2R r - Rsum (map (fun x => B2R x) a))
-                <= gamma 53 (dims + 3) * Rsum (map (fun x => Rabs (B2R x)) a)
-    | _ => False
-    end.
-Proof. exact (sum_bound_ops f64_ops f64_ops_faithful). Qed.
-
-Theorem C04_dot_bound_f64 :
-  forall (r : reg) (R : SimdOps f64), f64_ops r = Some R ->
-    forall (a b res : list f64) (dims : nat),
-    length a = dims -> Forall (fun x => fin x) a ->
-    INR (dims + 3) * u 53 < 1 ->
-    length b = dims -> Forall (fun x => fin x) b ->
-    Forall2 (fun x y => nosub 53 (SpecFloat.emin 53 1024) (B2R x * B2R y)) a b ->
-    (1 + u 53) ^ (dims + 3) * Rsum (map2 (fun x y => Rabs (B2R x * B2R y)) a b) < bpow radix2 1024 ->
-    match generic_dot_product R float_math dims (init_mem a b res) with
-    | Ok r m => run_ok (init_mem a b res) m /\ fin r /\
-                Rabs (B2R r - Rsum (map2 (fun x y => B2R x * B2R y) a b))
-                <= gamma 53 (dims + 3) * Rsum (map2 (fun x y => Rabs (B2R x * B2R y)) a b)
-    | _ => False
-    end.
-Proof. exact (dot_bound_ops f64_ops f64_ops_faithful). Qed.
-
-Theorem C04_norm_bound_f64 :
-  forall (r : reg) (R : SimdOps f64), f64_ops r = Some R ->
-    forall (a b res : list f64) (dims : nat),
-    length a = dims -> Forall (fun x => fin x) a ->
-    INR (dims + 3) * u 53 < 1 ->
-    Forall (fun x => nosub 53 (SpecFloat.emin 53 1024) (B2R x * B2R x)) a ->
-    (1 + u 53) ^ (dims + 3) * Rsum (map (fun x => Rabs (B2R x * B2R x)) a) < bpow radix2 1024 ->
-    match generic_squared_norm R float_math dims (init_mem a b res) with
-    | Ok r m => run_ok (init_mem a b res) m /\ fin r /\
-                Rabs (B2R r - Rsum (map (fun x => B2R x * B2R x) a))
-                <= gamma 53 (dims + 3) * Rsum (map (fun x => Rabs (B2R x * B2R x)) a)
-    | _ => False
-    end.
-Proof. exact (norm_bound_ops f64_ops f64_ops_faithful). Qed.
-
-Theorem C04_euclid_bound_f64 :
-  forall (r : reg) (R : SimdOps f64), f64_ops r = Some R ->
-    forall (a b res : list f64) (dims : nat),
-    length a = dims -> Forall (fun x => fin x) a ->
-    INR (dims + 3) * u 53 < 1 ->
-    length b = dims -> Forall (fun x => fin x) b ->
-    Forall2 (fun x y => nosub 53 (SpecFloat.emin 53 1024) (dsq x y)) a b ->
-    (1 + u 53) ^ (dims + 3) * Rsum (map2 (fun x y => Rabs (sq x y)) a b) < bpow radix2 1024 ->
-    match generic_euclidean R float_math dims (init_mem a b res) with
-    | Ok r m => run_ok (init_mem a b res) m /\ fin r /\
-                Rabs (B2R r - Rsum (map2 sq a b))
-                <= gamma 53 (dims + 3) * Rsum (map2 (fun x y => Rabs (sq x y)) a b)
-    | _ => False
-    end.
-Proof. exact (euclid_bound_ops f64_ops f64_ops_faithful). Qed.
-
-Theorem C04_sum_exact_f64 :
-  forall (r : reg) (R : SimdOps f64), f64_ops r = Some R ->
-    forall (a b res : list f64) (dims : nat),
-    length a = dims -> Forall (fun x => fin x) a ->
-    forall e : Z, (SpecFloat.emin 53 1024 <= e)%Z ->
-    Forall (fun x => mult_e e (B2R x)) a ->
-    Rsum (map (fun x => Rabs (B2R x)) a) <= bpow radix2 (e + 53) ->
-    Rsum (map (fun x => Rabs (B2R x)) a) < bpow radix2 1024 ->
-    match generic_sum R float_math dims (init_mem a b res) with
-    | Ok r m => run_ok (init_mem a b res) m /\ fin r /\ B2R r = Rsum (map (fun x => B2R x) a)
-    | _ => False
-    end.
-Proof. exact (sum_exact_ops f64_ops f64_ops_faithful). Qed.
-
-Theorem C04_dot_exact_f64 :
-  forall (r : reg) (R : SimdOps f64), f64_ops r = Some R ->
-    forall (a b res : list f64) (dims : nat),
-    length a = dims -> Forall (fun x => fin x) a ->
-    forall e : Z, (SpecFloat.emin 53 1024 <= e)%Z ->
-    length b = dims -> Forall (fun x => fin x) b ->
-    Forall2 (fun x y => mult_e e (B2R x * B2R y)) a b ->
-    Rsum (map2 (fun x y => Rabs (B2R x * B2R y)) a b) <= bpow radix2 (e + 53) ->
-    Rsum (map2 (fun x y => Rabs (B2R x * B2R y)) a b) < bpow radix2 1024 ->
-    match generic_dot_product R float_math dims (init_mem a b res) with
-    | Ok r m => run_ok (init_mem a b res) m /\ fin r /\ B2R r = Rsum (map2 (fun x y => B2R x * B2R y) a b)
-    | _ => False
-    end.
-Proof. exact (dot_exact_ops f64_ops f64_ops_faithful). Qed.
-
-Theorem C04_norm_exact_f64 :
-  forall (r : reg) (R : SimdOps f64), f64_ops r = Some R ->
-    forall (a b res : list f64) (dims : nat),
-    length a = dims -> Forall (fun x => fin x) a ->
-    forall e : Z, (SpecFloat.emin 53 1024 <= e)%Z ->
-    Forall (fun x => mult_e e (B2R x * B2R x)) a ->
-    Rsum (map (fun x => Rabs (B2R x * B2R x)) a) <= bpow radix2 (e + 53) ->
-    Rsum (map (fun x => Rabs (B2R x * B2R x)) a) < bpow radix2 1024 ->
-    match generic_squared_norm R float_math dims (init_mem a b res) with
-    | Ok r m => run_ok (init_mem a b res) m /\ fin r /\ B2R r = Rsum (map (fun x => B2R x * B2R x) a)
-    | _ => False
-    end.
-Proof. exact (norm_exact_ops f64_ops f64_ops_faithful). Qed.
-
-Theorem C04_euclid_exact_f64 :
-  forall (r : reg) (R : SimdOps f64), f64_ops r = Some R ->
-    forall (a b res : list f64) (dims : nat),
-    length a = dims -> Forall (fun x => fin x) a ->
-    forall e : Z, (SpecFloat.emin 53 1024 <= e)%Z ->
-    length b = dims -> Forall (fun x => fin x) b ->
-    Forall2 (fun x y => generic_format radix2 (FLT_exp (SpecFloat.emin 53 1024) 53) (B2R x - B2R y)
-                         /\ mult_e e (sq x y)) a b ->
-    Rsum (map2 (fun x y => Rabs (sq x y)) a b) <= bpow radix2 (e + 53) ->
-    Rsum (map2 (fun x y => Rabs (sq x y)) a b) < bpow radix2 1024 ->
-    match generic_euclidean R float_math dims (init_mem a b res) with
-    | Ok r m => run_ok (init_mem a b res) m /\ fin r /\ B2R r = Rsum (map2 sq a b)
-    | _ => False
-    end.
-Proof. exact (euclid_exact_ops f64_ops f64_ops_faithful). Qed.
-
-Theorem C04_onehot_f64 :
-  forall (r : reg) (R : SimdOps f64), f64_ops r = Some R ->
-    forall (l1 l2 b res : list f64),
-    Forall (fun x => fin x /\ B2R x = 0) l1 -> Forall (fun x => fin x /\ B2R x = 0) l2 ->
-    let a := l1 ++ [f_one] ++ l2 in
-    match generic_sum R float_math (length a) (init_mem a b res) with
-    | Ok r m => run_ok (init_mem a b res) m /\ fin r /\ B2R r = 1
-    | _ => False
-    end.
-Proof. exact (sum_onehot_ops f64_ops f64_ops_faithful). Qed.
+   (forall (a b res : list f64) (dims : nat),
+      length a = dims -> Forall (fun x => fin x) a ->
+      INR (dims + 3) * u 53 < 1 ->
+      (1 + u 53) ^ (dims + 3) * Rsum (map (fun x => Rabs (B2R x)) a) < bpow radix2 1024 ->
+      match generic_sum R float_math dims (init_mem a b res) with
+      | Ok r m => run_ok (init_mem a b res) m /\ fin r /\
+                  Rabs (B2R r - Rsum (map (fun x => B2R x) a))
+                  <= gamma 53 (dims + 3) * Rsum (map (fun x => Rabs (B2R x)) a)
+      | _ => False
+      end)
+   /\
+   (forall (a b res : list f64) (dims : nat),
+      length a = dims -> Forall (fun x => fin x) a ->
+      INR (dims + 3) * u 53 < 1 ->
+      length b = dims -> Forall (fun x => fin x) b ->
+      Forall2 (fun x y => nosub 53 (SpecFloat.emin 53 1024) (B2R x * B2R y)) a b ->
+      (1 + u 53) ^ (dims + 3) * Rsum (map2 (fun x y => Rabs (B2R x * B2R y)) a b) < bpow radix2 1024 ->
+      match generic_dot_product R float_math dims (init_mem a b res) with
+      | Ok r m => run_ok (init_mem a b res) m /\ fin r /\
+                  Rabs (B2R r - Rsum (map2 (fun x y => B2R x * B2R y) a b))
+                  <= gamma 53 (dims + 3) * Rsum (map2 (fun x y => Rabs (B2R x * B2R y)) a b)
+      | _ => False
+      end)
+   /\
+   (forall (a b res : list f64) (dims : nat),
+      length a = dims -> Forall (fun x => fin x) a ->
+      INR (dims + 3) * u 53 < 1 ->
+      Forall (fun x => nosub 53 (SpecFloat.emin 53 1024) (B2R x * B2R x)) a ->
+      (1 + u 53) ^ (dims + 3) * Rsum (map (fun x => Rabs (B2R x * B2R x)) a) < bpow radix2 1024 ->
+      match generic_squared_norm R float_math dims (init_mem a b res) with
+      | Ok r m => run_ok (init_mem a b res) m /\ fin r /\
+                  Rabs (B2R r - Rsum (map (fun x => B2R x * B2R x) a))
+                  <= gamma 53 (dims + 3) * Rsum (map (fun x => Rabs (B2R x * B2R x)) a)
+      | _ => False
+      end)
+   /\
+   (forall (a b res : list f64) (dims : nat),
+      length a = dims -> Forall (fun x => fin x) a ->
+      INR (dims + 3) * u 53 < 1 ->
+      length b = dims -> Forall (fun x => fin x) b ->
+      Forall2 (fun x y => nosub 53 (SpecFloat.emin 53 1024) (dsq x y)) a b ->
+      (1 + u 53) ^ (dims + 3) * Rsum (map2 (fun x y => Rabs (sq x y)) a b) < bpow radix2 1024 ->
+      match generic_euclidean R float_math dims (init_mem a b res) with
+      | Ok r m => run_ok (init_mem a b res) m /\ fin r /\
+                  Rabs (B2R r - Rsum (map2 sq a b))
+                  <= gamma 53 (dims + 3) * Rsum (map2 (fun x y => Rabs (sq x y)) a b)
+      | _ => False
+      end)
+   /\
+   (forall (a b res : list f64) (dims : nat),
+      length a = dims -> Forall (fun x => fin x) a ->
+      forall e : Z, (SpecFloat.emin 53 1024 <= e)%Z ->
+      Forall (fun x => mult_e e (B2R x)) a ->
+      Rsum (map (fun x => Rabs (B2R x)) a) <= bpow radix2 (e + 53) ->
+      Rsum (map (fun x => Rabs (B2R x)) a) < bpow radix2 1024 ->
+      match generic_sum R float_math dims (init_mem a b res) with
+      | Ok r m => run_ok (init_mem a b res) m /\ fin r /\ B2R r = Rsum (map (fun x => B2R x) a)
+      | _ => False
+      end)
+   /\
+   (forall (a b res : list f64) (dims : nat),
+      length a = dims -> Forall (fun x => fin x) a ->
+      forall e : Z, (SpecFloat.emin 53 1024 <= e)%Z ->
+      length b = dims -> Forall (fun x => fin x) b ->
+      Forall2 (fun x y => mult_e e (B2R x * B2R y)) a b ->
+      Rsum (map2 (fun x y => Rabs (B2R x * B2R y)) a b) <= bpow radix2 (e + 53) ->
+      Rsum (map2 (fun x y => Rabs (B2R x * B2R y)) a b) < bpow radix2 1024 ->
+      match generic_dot_product R float_math dims (init_mem a b res) with
+      | Ok r m => run_ok (init_mem a b res) m /\ fin r /\ B2R r = Rsum (map2 (fun x y => B2R x * B2R y) a b)
+      | _ => False
+      end)
+   /\
+   (forall (a b res : list f64) (dims : nat),
+      length a = dims -> Forall (fun x => fin x) a ->
+      forall e : Z, (SpecFloat.emin 53 1024 <= e)%Z ->
+      Forall (fun x => mult_e e (B2R x * B2R x)) a ->
+      Rsum (map (fun x => Rabs (B2R x * B2R x)) a) <= bpow radix2 (e + 53) ->
+      Rsum (map (fun x => Rabs (B2R x * B2R x)) a) < bpow radix2 1024 ->
+      match generic_squared_norm R float_math dims (init_mem a b res) with
+      | Ok r m => run_ok (init_mem a b res) m /\ fin r /\ B2R r = Rsum (map (fun x => B2R x * B2R x) a)
+      | _ => False
+      end)
+   /\
+   (forall (a b res : list f64) (dims : nat),
+      length a = dims -> Forall (fun x => fin x) a ->
+      forall e : Z, (SpecFloat.emin 53 1024 <= e)%Z ->
+      length b = dims -> Forall (fun x => fin x) b ->
+      Forall2 (fun x y => generic_format radix2 (FLT_exp (SpecFloat.emin 53 1024) 53) (B2R x - B2R y)
+                           /\ mult_e e (sq x y)) a b ->
+      Rsum (map2 (fun x y => Rabs (sq x y)) a b) <= bpow radix2 (e + 53) ->
+      Rsum (map2 (fun x y => Rabs (sq x y)) a b) < bpow radix2 1024 ->
+      match generic_euclidean R float_math dims (init_mem a b res) with
+      | Ok r m => run_ok (init_mem a b res) m /\ fin r /\ B2R r = Rsum (map2 sq a b)
+      | _ => False
+      end)
+   /\
+   (forall (l1 l2 b res : list f64),
+      Forall (fun x => fin x /\ B2R x = 0) l1 -> Forall (fun x => fin x /\ B2R x = 0) l2 ->
+      let a := l1 ++ [f_one] ++ l2 in
+      match generic_sum R float_math (length a) (init_mem a b res) with
+      | Ok r m => run_ok (init_mem a b res) m /\ fin r /\ B2R r = 1
+      | _ => False
+      end).
+Proof. exact (all_ops f64_ops f64_ops_faithful). Qed.
 
 Check C04_sum_bound. Check C04_dot_bound. Check C04_norm_bound. Check C04_euclid_bound.
 Check C04_sum_exact. Check C04_dot_exact. Check C04_norm_exact. Check C04_euclid_exact. Check C04_onehot.
